@@ -40,7 +40,7 @@ P = {
          "Lean 4 proof (per-code soundness; errors table by kernel evaluation) + differential correspondence + per-code predicates", "7 C15"),
  "C16": ("proof", "Proved: rc_shape, flags (at most one, matches the form of the domain, none when invalid), extra_strings, checkIp_flags, no_abort; with C05 literal_family the IP flag is the family of the address present. K on every result field incl. EAV_EXTRA strings over two builds.",
          "Lean 4 proof + differential correspondence over two builds", "7 C16"),
- "C17": ("proof", "Proved: each option leaves every other decision unchanged (ascii_locals_ignore_options, locals_ignore_underscore, domain_ignores_local_options), underscore_iff / underscore_monotone, rfc5322_ascii, utf8_necessary_all_builds, rfc20_no_effect, defaults_off; Makefile defaults and the ON->-D mapping and the per-option case lists are theorems over regenerated data. Partial: 'RFC 20 characters rejected exactly outside quotes' is decided by K/S. Every option build (4 quick / all 8 thorough) is built with the repository Makefile and compared with the default build and with the model carrying the same options.",
+ "C17": ("proof", "Proved: each option leaves every other decision unchanged (ascii_locals_ignore_options, locals_ignore_underscore, domain_ignores_local_options), underscore_iff / underscore_monotone, rfc5322_ascii, utf8_necessary_all_builds, rfc20_no_effect, rfc20_exact (with the option a local part is accepted in mode 6531 iff it is accepted without it and none of the seven characters occurs outside quotes), defaults_off; Makefile defaults and the ON->-D mapping and the per-option case lists are theorems over regenerated data. Every option build (4 quick / all 8 thorough) is built with the repository Makefile and compared with the default build and with the model carrying the same options.",
          "Lean 4 proof (option orthogonality, build-option tie) + differential correspondence over all option builds", "7 C17"),
  "C18": ("proof", "Proved: the back end is unobservable (setupAscii_agree, setup6531_agree, eavSetup_agree, backends_agree by simulation), with C13's ledger for idnkit's resconf. The three partial/<backend> source sets are compiled against shim headers onto one converter; S: identical outcomes on addresses and call histories, idnkit context create/destroy counters balanced.",
          "Lean 4 proof (simulation across the Backend parameter) + differential correspondence across three back-end builds", "7 C18"),
